@@ -46,6 +46,13 @@ func checkC03(c *Ctx) {
 	c03Arrays(c)
 	c03MarshalReceiver(c)
 	c03ResponseNeedsID(c)
+	// what reaches a stream is one message per frame and nothing else (a log line on the stdio server's stdout is not a
+	// JSON-RPC message): the stream-sharing rules of C09 apply
+	{
+		e, nd, as := c.R.Explanation, c.R.NotDecided, c.R.Assumptions
+		checkC09(c)
+		c.R.Explanation, c.R.NotDecided, c.R.Assumptions = e, nd, as
+	}
 	c03Passthrough(c)
 	c03QueueAnswered(c)
 	// a response without the id of its request is not a well-formed answer to it (shared with C01)
